@@ -5,7 +5,7 @@ use std::io::Read as _;
 use std::os::unix::io::{AsRawFd, RawFd};
 use std::panic::{catch_unwind, AssertUnwindSafe};
 
-use micro_http::{Encoding, Headers, HttpConnection, MediaType, Method, Request, Version};
+use micro_http::{Body, Encoding, Headers, HttpConnection, MediaType, Method, Request, Response, StatusCode, Version};
 
 use crate::connrun::*;
 use crate::engine::*;
@@ -1197,7 +1197,8 @@ fn c12_ss(input: &Input, obs: &mut Obs) -> Result<(), Fail> {
     let total = stream.len();
     let mut eof_done = false;
     let mut guardn = 0usize;
-    let mut decide = |run: &ConnRun, total_fds: usize| -> Option<(ReadEv, usize)> {
+    let lazy = s.chance(50);
+    let mut decide = |run: &ConnRun, total_fds: usize| -> Option<(ReadEv, usize, C12Post)> {
         if !((run.remaining() > 0 || (!eof_done && s.chance(40))) && guardn < 4 * total + 64) {
             return None;
         }
@@ -1215,7 +1216,22 @@ fn c12_ss(input: &Input, obs: &mut Obs) -> Result<(), Fail> {
             2 => s.range(2, 6),
             _ => if total_fds < 300 { 253 } else { 2 },
         };
-        Some((ev, nf))
+        // mostly read-then-drain like the server; sometimes requests stay queued across reads,
+        // and sometimes a response is written (or fails to be) in between
+        let pop = match s.weighted(if lazy { &[8, 10, 6] } else { &[40, 6, 4] }) {
+            0 => usize::MAX,
+            1 => 0,
+            _ => 1,
+        };
+        let write = match s.weighted(&[40, 3, 2, 2, 1, 1]) {
+            0 => None,
+            1 => Some(WriteEv::All),
+            2 => Some(WriteEv::Epipe),
+            3 => Some(WriteEv::Eagain),
+            4 => Some(WriteEv::Zero),
+            _ => Some(WriteEv::Accept(s.u16())),
+        };
+        Some((ev, nf, C12Post { pop, write }))
     };
     let r = c12_core(&stream, &mut decide, obs);
     let npipes = r.as_ref().map(|n| *n).unwrap_or(0);
@@ -1229,17 +1245,36 @@ fn c12_ss(input: &Input, obs: &mut Obs) -> Result<(), Fail> {
 
 /// Drive one connection over `stream`; `decide` supplies each read and the number of
 /// descriptors that ride on it. Returns the number of descriptors created.
-fn c12_core(stream: &[u8], decide: &mut dyn FnMut(&ConnRun, usize) -> Option<(ReadEv, usize)>, obs: &mut Obs) -> Result<usize, Fail> {
+/// What the caller does between two reads: how many of the queued requests it pops, and
+/// whether it enqueues a response and attempts a write under the given stream behaviour.
+#[derive(Clone, Copy)]
+pub struct C12Post {
+    /// pop at most this many queued requests now (usize::MAX: all)
+    pub pop: usize,
+    pub write: Option<WriteEv>,
+}
+
+impl C12Post {
+    pub const ALL: C12Post = C12Post { pop: usize::MAX, write: None };
+}
+
+fn c12_core(stream: &[u8], decide: &mut dyn FnMut(&ConnRun, usize) -> Option<(ReadEv, usize, C12Post)>, obs: &mut Obs) -> Result<usize, Fail> {
     let base_fds = fd_count();
     let mut pipes: Vec<Pipe> = Vec::new();
     let result = (|| -> Result<(), Fail> {
         let mut run = ConnRun::new(stream.to_vec(), None, false);
         run.keep = true;
+        run.defer_pop = true;
+        // completion points by the reference: with pops deferred the number of requests a read
+        // completes is not observable at the read itself
+        let (refreqs, _) = ref_parse(stream, buf_size(), crate::DEFAULT_LIMIT);
+        let comp: Vec<usize> = refreqs.iter().filter(|r| r.complete_at != usize::MAX).map(|r| r.complete_at).collect();
+        let mut done = 0usize;
         let mut pool: Vec<u32> = Vec::new(); // tags waiting at the connection
         let mut expected: Vec<Vec<u32>> = Vec::new(); // per delivered request
         let mut next_tag = 1u32;
         let mut total_fds = 0usize;
-        while let Some((ev0, nf)) = decide(&run, total_fds) {
+        while let Some((ev0, nf, post)) = decide(&run, total_fds) {
             let mut ev = ev0;
             let mut these: Vec<usize> = Vec::new();
             if nf > 0 {
@@ -1292,7 +1327,10 @@ fn c12_core(stream: &[u8], decide: &mut dyn FnMut(&ConnRun, usize) -> Option<(Re
                 RRes::Panic(m) => return Err(Fail::new("C12:panic", m.clone())),
                 _ => {}
             }
-            let ndel = run.kept.len() - kept_before;
+            let done_now = comp.iter().filter(|c| **c <= run.consumed).count();
+            let ndel = done_now - done;
+            done = done_now;
+            let queued_before = (done - ndel).saturating_sub(kept_before);
             if ndel >= 1 {
                 if !pool.is_empty() && ndel >= 2 {
                     obs.label("read_completing_2+_requests_with_descriptors");
@@ -1306,6 +1344,34 @@ fn c12_core(stream: &[u8], decide: &mut dyn FnMut(&ConnRun, usize) -> Option<(Re
             }
             if handed == 253 {
                 obs.label("253_on_one_read");
+            }
+            if ndel >= 1 && queued_before > 0 && expected[done - ndel..].iter().any(|e| !e.is_empty()) {
+                obs.label("descriptors_for_request_completed_behind_unpopped_ones");
+            }
+            // the caller's moves before the next read
+            if let Some(wev) = post.write {
+                let mut r = Response::new(Version::Http11, StatusCode::OK);
+                r.set_body(Body::new("c12"));
+                run.conn.enqueue_response(r);
+                run.ss.borrow_mut().next_write = Some(wev);
+                let res = catch_unwind(AssertUnwindSafe(|| run.conn.try_write()));
+                run.ss.borrow_mut().next_write = None;
+                match res {
+                    Err(p) => return Err(Fail::new("C12:panic", format!("panic in try_write: {}", crate::connrun::panic_msg(p)))),
+                    Ok(Err(_)) => {
+                        if !pool.is_empty() {
+                            obs.label("failed_write_with_descriptors_pending");
+                        }
+                    }
+                    Ok(Ok(())) => {}
+                }
+            }
+            let popped = run.pop_some(post.pop).map_err(|m| Fail::new("C12:panic", m))?;
+            if popped + kept_before < done {
+                obs.label("requests_left_queued_across_a_read");
+            }
+            if run.kept.len() > done {
+                return Err(Fail::new("C12:count-ref", format!("{} requests popped, {} complete by the reference", run.kept.len(), done)));
             }
             // check the newly delivered requests
             for (k, (_, rq)) in run.kept.iter_mut().enumerate().skip(kept_before) {
@@ -1329,6 +1395,28 @@ fn c12_core(stream: &[u8], decide: &mut dyn FnMut(&ConnRun, usize) -> Option<(Re
             nums.dedup();
             if nums.len() != n0 {
                 return Err(Fail::new("C12:duplicate", "one descriptor number is owned by two delivered files".into()));
+            }
+        }
+        // everything still queued is popped now
+        {
+            let kept_before = run.kept.len();
+            run.pop_some(usize::MAX).map_err(|m| Fail::new("C12:panic", m))?;
+            if run.kept.len() != done {
+                return Err(Fail::new("C12:count-ref", format!("{} requests popped in all, {} complete by the reference", run.kept.len(), done)));
+            }
+            for (k, (_, rq)) in run.kept.iter_mut().enumerate().skip(kept_before) {
+                let want = &expected[k];
+                if rq.files.len() != want.len() {
+                    return Err(Fail::new("C12:count", format!("request #{} carries {} descriptors, expected {} (tags {:?})", k, rq.files.len(), want.len(), want)));
+                }
+                for (j, f) in rq.files.iter_mut().enumerate() {
+                    let mut b = [0u8; 4];
+                    let n = f.read(&mut b).unwrap_or(0);
+                    let tag = u32::from_le_bytes(b);
+                    if n != 4 || tag != want[j] {
+                        return Err(Fail::new("C12:identity", format!("request #{} descriptor {}: read tag {} ({} bytes), expected tag {}", k, j, tag, n, want[j])));
+                    }
+                }
             }
         }
         let delivered_with = expected.iter().filter(|e| !e.is_empty()).count();
@@ -1406,10 +1494,10 @@ fn c12_count(input: &Input, obs: &mut Obs) -> Result<(), Fail> {
         _ => vec![(r1.len(), 1), (r2.len(), 0), (0, k)],
     };
     let mut i = 0;
-    let mut decide = |_run: &ConnRun, _t: usize| -> Option<(ReadEv, usize)> {
+    let mut decide = |_run: &ConnRun, _t: usize| -> Option<(ReadEv, usize, C12Post)> {
         let (want, nf) = *plan.get(i)?;
         i += 1;
-        Some(if want == 0 { (ReadEv::Eof { fds: vec![] }, nf) } else { (ReadEv::Data { want, fds: vec![] }, nf) })
+        Some(if want == 0 { (ReadEv::Eof { fds: vec![] }, nf, C12Post::ALL) } else { (ReadEv::Data { want, fds: vec![] }, nf, C12Post::ALL) })
     };
     c12_core(&stream, &mut decide, obs)?;
     obs.nontrivial = k >= 2;
